@@ -221,17 +221,19 @@ def eval_presentation(nodes, nbrs, plan, acc):
     for fn, params in calls_for(nodes, nbrs, plan, pre):
         case = {"fn": fn, "nodes": list(nodes), "nbrs": [list(l) for l in nbrs], "params": params}
         acc["evals"] += 1
-        signal.alarm(20)
+        # CPU-time budget (ITIMER_VIRTUAL): the verdict does not depend on how busy the machine is
+        signal.setitimer(signal.ITIMER_VIRTUAL, 60)
         try:
-            bad = eval_case(fn, nodes, nbrs, params, pre)
+            try:
+                bad = eval_case(fn, nodes, nbrs, params, pre)
+            finally:
+                signal.setitimer(signal.ITIMER_VIRTUAL, 0)
         except _Timeout:
-            bad = [("returns", "no result after 20 s")]
+            bad = [("returns", "no result after 60 s of CPU time")]
         except RecursionError:
             bad = [("returns", "RecursionError")]
         except Exception as e:  # the functions are total on these inputs
             bad = [("returns", f"raised {type(e).__name__}: {e}")]
-        finally:
-            signal.alarm(0)
         for suffix, detail in bad:
             obl = f"{P}/{fn}/{suffix}"
             if asym and fn in ("articulation_points", "bridges", "kcore_decomposition", "kcore", "louvain"):
@@ -382,7 +384,7 @@ PLAN_ALL4 = {"und": True, "res": RES, "pr": PR_STD + ((None, None, None),), "pre
 def work(task):
     from vf.core import use_repo
     use_repo()
-    signal.signal(signal.SIGALRM, _alarm)
+    signal.signal(signal.SIGVTALRM, _alarm)
     acc = {"evals": 0, "cases": 0, "keys": [], "fails": [], "fail_counts": {}, "samples": [], "ratio": 0.0, "asym": 0}
     scope = task[0]
     if scope == "S1":
@@ -587,17 +589,18 @@ def run(ctx: Ctx):
 
 def replay(rec) -> int:
     use_repo()
-    signal.signal(signal.SIGALRM, _alarm)
+    signal.signal(signal.SIGVTALRM, _alarm)
     case = rec["case"]
-    signal.alarm(60)
+    signal.setitimer(signal.ITIMER_VIRTUAL, 120)
     try:
-        bad = eval_case(case["fn"], case["nodes"], case["nbrs"], case["params"])
+        try:
+            bad = eval_case(case["fn"], case["nodes"], case["nbrs"], case["params"])
+        finally:
+            signal.setitimer(signal.ITIMER_VIRTUAL, 0)
     except _Timeout:
-        bad = [("returns", "no result after 60 s")]
+        bad = [("returns", "no result after 120 s of CPU time")]
     except Exception as e:
         bad = [("returns", f"raised {type(e).__name__}: {e}")]
-    finally:
-        signal.alarm(0)
     print("replay:", case["fn"], "nodes", case["nodes"], "nbrs", case["nbrs"], case["params"])
     print("  ->", bad or "no violation")
     return 1 if bad else 0
